@@ -1,6 +1,7 @@
 package checks
 
 import (
+	"errors"
 	"context"
 	"encoding/json"
 	"fmt"
@@ -88,6 +89,9 @@ func (h *scriptHandler) ServeNostr(ctx context.Context, send chan<- mocrelay.Ser
 					outs = []mocrelay.ServerMsg{mocrelay.NewServerEOSEMsg(m.SubscriptionID)}
 				}
 			case *mocrelay.ClientCloseMsg:
+				if m.SubscriptionID == "die" {
+					return errors.New("backend gone") // the handler ends the session by itself
+				}
 				if strings.HasPrefix(m.SubscriptionID, "srv:") {
 					outs = append(outs, mocrelay.NewServerClosedMsg(strings.TrimPrefix(m.SubscriptionID, "srv:"), "", "server closes"))
 				}
@@ -325,6 +329,30 @@ func C19(run *core.Run) {
 			case r.Intn(12) == 0:
 				end(s) // a session ends with subscriptions still open
 				observe("after end")
+			case r.Intn(30) == 0:
+				// the wrapped handler returns by itself (a backend error) while the client is still there:
+				// that is the end of the session too
+				die := &mocrelay.ClientCloseMsg{SubscriptionID: "die"}
+				select {
+				case s.ss.recv <- die:
+				case <-time.After(3 * time.Second):
+					run.Violate("metrics:session stuck", "session does not take input", nil)
+					ok = false
+				}
+				if ok {
+					s.sent = append(s.sent, die)
+					tr.Lines = append(tr.Lines, map[string]any{"op": "cmsg", "s": s.name, "type": "CLOSE", "kind": "k0", "sub": "die", "shape": "cmsg CLOSE"})
+					select {
+					case <-s.ss.done:
+					case <-time.After(3 * time.Second):
+						run.Violate("metrics:session does not end after its handler returned", "ServeNostr of the middleware still running 3 s after the wrapped handler returned an error", nil)
+						ok = false
+					}
+					s.ss.cancel()
+					s.live = false
+					tr.Lines = append(tr.Lines, map[string]any{"op": "end", "s": s.name, "shape": "end"})
+					observe("after the handler ended the session")
+				}
 			case r.Intn(5) == 0:
 				observe("mid")
 			default:
@@ -473,7 +501,9 @@ func metricsOverUnixSocket(run *core.Run) (tv.Trace, bool) {
 	}
 	var conns []*websocket.Conn
 	for i, subs := range [][]string{{"a"}, {"b", "c"}} {
-		c, _, err := websocket.Dial(ctx, "ws://relay/", &websocket.DialOptions{HTTPClient: client})
+		// both peers also send the same request-scoped headers: nothing in a request identifies a session
+		hdr := http.Header{"X-Request-Id": {"req-1"}, "X-Forwarded-For": {"203.0.113.7"}, "X-Real-Ip": {"203.0.113.7"}, "User-Agent": {"verif"}}
+		c, _, err := websocket.Dial(ctx, "ws://relay/", &websocket.DialOptions{HTTPClient: client, HTTPHeader: hdr})
 		if err != nil {
 			run.Problem("dial over the unix socket: %v", err)
 			return tr, false
